@@ -11,7 +11,7 @@ use super::common::Driver;
 use super::crash::{quiet_panics, recover_opts, Mat, Recovered};
 use crate::gen::Profile;
 use crate::image::Image;
-use crate::ops::{short, Op, Outcome, Policy};
+use crate::ops::{short, ErrKind, Op, Outcome, Policy};
 use crate::runner::{Acc, Ctx, Monitor, Tier};
 use crate::util::{hash_combine, hash_str, Rng};
 
@@ -44,10 +44,12 @@ impl Monitor for C04 {
             ("probe_appends_after_restart", tier.pick(5_000, 100_000)),
             ("probe_appends_after_crash_recovery", tier.pick(5_000, 100_000)),
             ("last_position_reads_checked", tier.pick(100_000, 2_000_000)),
+            ("crash_images_torn_inside_a_multi_frame_append", tier.pick(20_000, 250_000)),
+            ("restarts_of_a_recovered_log", tier.pick(40_000, 500_000)),
         ]
     }
     fn rule(&self) -> String {
-        "case = one generated history (idle/gc/delete/mixed profiles, 60..160 calls, restarts) under Always(Flush); the monitor keeps, per queue incarnation and from call arguments/results only, the highest position ever appended or truncated-to; evaluation = one successful append (returned positions strictly above the mark, automatic positions exactly mark+1) or one last_position() read; after every restart every queue gets a probe append; at sampled call boundaries the live directory (= process-crash image under a flush-per-call policy) is recovered in a side branch and every queue is probed there; distinct_nontrivial = distinct (queue, mark, restarts, unlinks) tuples of appends made after at least one restart or recovery".into()
+        "case = one generated history (idle/gc/delete/mixed profiles, 60..160 calls, restarts) under Always(Flush); the monitor keeps, per queue incarnation and from call arguments/results only, the highest position ever appended or truncated-to; evaluation = one successful append (returned positions strictly above the mark, automatic positions exactly mark+1) or one last_position() read; after every restart every queue gets a probe append; at sampled call boundaries the live directory (= process-crash image under a flush-per-call policy) is recovered in a side branch and every queue is probed there; for half of the appends of several frames a second image, torn between the first frame of the entry and the rest (the append is then unacknowledged and its positions free), is recovered and probed in the same way; every recovered branch is then restarted cleanly once more and last_position() re-read (the probes were acknowledged); distinct_nontrivial = distinct (queue, mark, restarts, unlinks) tuples of appends made after at least one restart or recovery".into()
     }
     fn assumptions(&self) -> Vec<String> {
         vec!["crash leg: the directory content at a call boundary under Always(Flush) is the process-crash image (all completed calls flushed)".into()]
@@ -186,6 +188,7 @@ impl Monitor for C04 {
             if is_restart {
                 restarts += 1;
             }
+            let inc_before = if matches!(st.op, Op::Append { .. }) { Some(inc.clone()) } else { None };
             if let Err((what, detail)) = observe(&mut inc, &st.op, &st.outcome, d.io.unlinks, restarts, acc, restarts + recoveries > 0, case) {
                 acc.violation(format!("C04/{}", what), case, json!({"history": d.history_json(400), "observation": detail}));
                 return;
@@ -217,24 +220,32 @@ impl Monitor for C04 {
                     }
                 }
             }
-            // crash branch at a call boundary
-            if !is_restart && rng.chance(1, 8) {
-                let img = Image::from_dir(&dir);
+            // crash branches: at the call boundary and - for an append of several frames - between
+            // the write of its first frame and the rest (the append is then not acknowledged)
+            let torn = match (&inc_before, &st.outcome) {
+                (Some(before), Outcome::Appended { last: Some(_), .. }) if rng.chance(1, 2) => torn_image(&dir, &st.events).map(|img| (img, before.clone())),
+                _ => None,
+            };
+            let boundary = if !is_restart && rng.chance(1, 8) { Some((Image::from_dir(&dir), inc.clone())) } else { None };
+            for (which, (img, expect)) in [("", boundary), ("-torn-inside-an-append", torn)].into_iter().filter_map(|(w, x)| x.map(|x| (w, x))) {
                 let mut mat = Mat::new(&side);
                 mat.sync(&img);
                 let (r, sut, evs) = recover_opts(&side, Policy::AlwaysFlush, key, false);
                 mat.touched_by(&evs);
+                if !which.is_empty() {
+                    acc.count("crash_images_torn_inside_a_multi_frame_append");
+                }
                 // restore the shim's root for the main line afterwards
                 match (&r, sut) {
                     (Recovered::Ok(_), Some(mut s)) => {
                         recoveries += 1;
-                        let mut branch = inc.clone();
-                        for (q, stq) in inc.iter() {
+                        let mut branch = expect.clone();
+                        for (q, stq) in expect.iter() {
                             match s.log().last_position(q) {
                                 Ok(lp) if lp == stq.high => {}
                                 other => {
                                     acc.violation(
-                                        "C04/last_position-disagrees-with-high-water-mark/after-crash-recovery",
+                                        format!("C04/last_position-disagrees-with-high-water-mark/after-crash-recovery{}", which),
                                         case,
                                         json!({"history": d.history_json(400), "queue": short(q), "recovered_last_position": format!("{:?}", other), "high_water_mark": stq.high}),
                                     );
@@ -250,13 +261,48 @@ impl Monitor for C04 {
                             let out = s.apply(900_000 + i, &probe);
                             acc.count("probe_appends_after_crash_recovery");
                             if let Err((what, detail)) = observe(&mut branch, &probe, &out, d.io.unlinks, restarts, acc, true, case) {
-                                acc.violation(format!("C04/{}/after-crash-recovery", what), case, json!({"history": d.history_json(400), "observation": detail}));
+                                acc.violation(format!("C04/{}/after-crash-recovery{}", what, which), case, json!({"history": d.history_json(400), "observation": detail}));
                                 finish(Some(s), &mut mat);
                                 crate::shim::set_root(&dir);
                                 return;
                             }
                             if !matches!(out, Outcome::Appended { last: Some(_), .. }) {
-                                acc.violation("C04/probe-append-rejected/after-crash-recovery", case, json!({"history": d.history_json(400), "outcome": out.to_json()}));
+                                acc.violation(format!("C04/probe-append-rejected/after-crash-recovery{}", which), case, json!({"history": d.history_json(400), "outcome": out.to_json()}));
+                                finish(Some(s), &mut mat);
+                                crate::shim::set_root(&dir);
+                                return;
+                            }
+                        }
+                        // the recovered log, with its probes, restarts once more: the probes were
+                        // acknowledged, so their positions stay used
+                        match s.reopen(950_000 + i as u64) {
+                            Ok(()) => {
+                                acc.count("restarts_of_a_recovered_log");
+                                for (q, stq) in branch.iter() {
+                                    acc.eval();
+                                    match s.log().last_position(q) {
+                                        Ok(lp) if lp == stq.high => {}
+                                        other => {
+                                            acc.violation(
+                                                format!("C04/last_position-disagrees-with-high-water-mark/after-restart-of-recovered-log{}", which),
+                                                case,
+                                                json!({"history": d.history_json(400), "queue": short(q), "last_position": format!("{:?}", other), "high_water_mark": stq.high,
+                                                       "note": "crash image recovered, one record appended to every queue, then a clean restart"}),
+                                            );
+                                            finish(Some(s), &mut mat);
+                                            crate::shim::set_root(&dir);
+                                            return;
+                                        }
+                                    }
+                                }
+                            }
+                            Err(e @ ErrKind::Io(_)) => acc.inconclusive(format!("restart of the recovered log hit an I/O error: {:?}", e)),
+                            Err(e) => {
+                                acc.violation(
+                                    format!("C04/restart-of-recovered-log-failed{}", which),
+                                    case,
+                                    json!({"history": d.history_json(400), "error": format!("{:?}", e), "note": "crash image recovered, one record appended to every queue, then a clean restart"}),
+                                );
                                 finish(Some(s), &mut mat);
                                 crate::shim::set_root(&dir);
                                 return;
@@ -278,4 +324,40 @@ impl Monitor for C04 {
         acc.add("wal_files_unlinked", d.io.unlinks);
         acc.sample(|| json!({"case": case, "history_excerpt": d.history_json(12), "high_water_marks": inc.iter().map(|(q, s)| json!({"queue": short(q), "high": s.high})).collect::<Vec<_>>()}));
     }
+}
+
+/// The directory as a crash between the write of the first frame of the entry written by the
+/// traced call and the rest of it would leave it: the bytes of the call behind that frame are
+/// zero again (WAL files are created zero-filled and never rewritten).  None when the call did
+/// not write an entry of several frames.
+fn torn_image(dir: &std::path::Path, events: &[crate::shim::Ev]) -> Option<Image> {
+    use crate::layout::parse_frames;
+    use crate::shim::Ev;
+    let writes: Vec<(&String, usize, usize)> = events
+        .iter()
+        .filter_map(|e| match e {
+            Ev::Write { name, off, data, err: 0, .. } if name.starts_with("wal-") && !data.is_empty() => Some((name, *off as usize, data.len())),
+            _ => None,
+        })
+        .collect();
+    let (file, start, _) = *writes.first()?;
+    let mut img = Image::from_dir(dir);
+    let cut = {
+        let data = img.files.get(file)?;
+        let f = parse_frames(data).into_iter().find(|f| f.off >= start && f.crc_ok)?;
+        if f.ftype != 2 {
+            return None;
+        }
+        f.end()
+    };
+    for (name, off, len) in writes {
+        let data = img.files.get_mut(name)?;
+        let (a, b) = if name == file { (off.max(cut), off + len) } else { (off, off + len) };
+        if a < b && b <= data.len() {
+            for x in &mut data[a..b] {
+                *x = 0;
+            }
+        }
+    }
+    Some(img)
 }
